@@ -148,8 +148,8 @@ def _has_proxy(a):
     if isinstance(a, _np.ndarray):
         return a.dtype == object and any(isinstance(v, (SNum, core.SBool)) for v in a.flat)
     if isinstance(a, (list, tuple)):
-        return core.any_sym(a)
-    return isinstance(a, SNum)
+        return any(_has_proxy(v) for v in a)
+    return isinstance(a, (SNum, core.SBool))
 
 
 def n_asarray(a, dtype=None, *args, **k):
@@ -184,6 +184,8 @@ def n_round(a, decimals=0, out=None):
 
 
 numpy_shim = Shim(_np, zeros=n_zeros, zeros_like=n_zeros_like, asarray=n_asarray, array=n_array, round=n_round, around=n_round)
+# for modules that also build integer / index matrices with np.zeros: only the conversions that must let proxies through
+numpy_shim_light = Shim(_np, asarray=n_asarray, array=n_array, round=n_round, around=n_round)
 
 
 # ---- time -----------------------------------------------------------------------------
